@@ -437,6 +437,12 @@ fn add_items<A: jbk::creator::ContentAdder + ?Sized>(adder: &mut A, items: &[Ite
 
 /// Create the logical container with BasicCreator (extra packs as separate bare files).
 pub fn create_logical(l: &Logical, comp: Comp, packaging: Packaging, dir: &Path, stem: &str) -> Result<CreatedLogical, String> {
+    create_logical_ext(l, comp, packaging, dir, stem, dir)
+}
+
+/// Same, with the extra content packs written into `extra_dir` (any directory, not necessarily
+/// the one of the entry-point file).
+pub fn create_logical_ext(l: &Logical, comp: Comp, packaging: Packaging, dir: &Path, stem: &str, extra_dir: &Path) -> Result<CreatedLogical, String> {
     let r = crate::catch(|| -> Result<CreatedLogical, String> {
         let path = dir.join(format!("{stem}.jbk"));
         let p = camino::Utf8PathBuf::from_path_buf(path.clone()).unwrap();
@@ -452,7 +458,7 @@ pub fn create_logical(l: &Logical, comp: Comp, packaging: Packaging, dir: &Path,
         let mut extras: Vec<jbk::creator::ContentPackCreator<dyn jbk::creator::PackRecipient>> = vec![];
         let mut files = vec![path.clone()];
         for (k, items) in l.extra_packs.iter().enumerate() {
-            let ep = dir.join(format!("{stem}.extra{}.jbkc", k + 2));
+            let ep = extra_dir.join(format!("{stem}.extra{}.jbkc", k + 2));
             let up = camino::Utf8PathBuf::from_path_buf(ep.clone()).unwrap();
             let file: Box<dyn jbk::creator::PackRecipient> =
                 jbk::creator::AtomicOutFile::new(&up).map_err(|e| format!("extra file: {e}"))?;
